@@ -144,6 +144,13 @@ func vC03WireOf(name string) []byte {
 	return append([]byte(nil), buf[:off]...)
 }
 
+// the model's fold_norm + A–Z fold: KELVIN SIGN -> k, LONG S -> s, then ASCII lower-casing
+func vC03FoldD(s string) string {
+	s = strings.ReplaceAll(s, "\u212a", "k")
+	s = strings.ReplaceAll(s, "\u017f", "s")
+	return vC03Lower(s)
+}
+
 // ASCII-only lower-casing (strings.ToLower would fold the Kelvin sign to k)
 func vC03Lower(s string) string {
 	b := []byte(s)
@@ -295,6 +302,8 @@ type vC03Hist struct {
 	failIDs  map[string]uint64
 	cutIDs   map[uint64]bool
 	negUsed  bool
+	nextShape int // shape of the next alias entry (0 plain)
+	now      time.Time // the failure cache's injected clock
 	nextRefreshID atomic.Uint64
 	pol      [4]uint8
 	batteries int
@@ -660,13 +669,16 @@ func (h *vC03Hist) relatedQ() vC03Q {
 }
 
 func (h *vC03Hist) opPurge() {
-	if h.raw {
-		// Store.Purge sweeps scoped entries with strings.EqualFold (Unicode folding); the model
-		// decides ASCII names only (see NOTES.md)
-		h.opLookup()
-		return
-	}
+	// Store.Purge sweeps scoped entries with strings.EqualFold (Unicode folding): raw-name histories
+	// stay inside the domain the model decides exactly (ASCII + KELVIN SIGN + LONG S)
 	q := h.relatedQ()
+	if h.raw {
+		for _, st := range h.stored {
+			if got, want := strings.EqualFold(st.ident.q.name, q.name), vC03FoldD(st.ident.q.name) == vC03FoldD(q.name); got != want {
+				h.failf("strings.EqualFold(%q, %q) = %v but the domain model says %v", st.ident.q.name, q.name, got, want)
+			}
+		}
+	}
 	h.c.Purge(q.dnsq())
 	h.ops = append(h.ops, fmt.Sprintf("OpPurge %s", q.coq()))
 	h.desc = append(h.desc, fmt.Sprintf("purge %v", q))
@@ -764,6 +776,72 @@ func (h *vC03Hist) opCut() {
 	h.hot = append(h.hot, vC03Spec{q: q, cd: h.r.Intn(5) == 0})
 	h.ops = append(h.ops, fmt.Sprintf("OpCut %s %d %s %d", vC03Bytes([]byte(q.name)), q.qclass, vC03Bool(ent.wireFull != nil), id))
 	h.desc = append(h.desc, fmt.Sprintf("cut#%d %q class %d zone %q wire=%v", id, q.name, q.qclass, zone, ent.wireFull != nil))
+}
+
+// the failure cache's clock moves: entries pass their retry-after, renewals climb the backoff ladder
+func (h *vC03Hist) opClock() {
+	dt := []time.Duration{time.Second, 4 * time.Second, 4999 * time.Millisecond, 5 * time.Second, 5001 * time.Millisecond,
+		9 * time.Second, 10 * time.Second, 20 * time.Second, 39 * time.Second, 41 * time.Second, 90 * time.Second}[h.r.Intn(11)]
+	h.now = h.now.Add(dt)
+	h.ops = append(h.ops, fmt.Sprintf("OpClock %d", dt.Milliseconds()))
+	h.desc = append(h.desc, fmt.Sprintf("clock +%v", dt))
+}
+
+// a subtree cut reaches the end of its lifetime (only its stored expiry moves)
+func (h *vC03Hist) opCutExpire() {
+	cc := h.c.store.nxDomainCuts
+	var ids []uint64
+	ents := map[uint64]*nxDomainCutEntry{}
+	cc.mu.Lock()
+	for _, e := range cc.entries {
+		if id, ok := vC03CutID(e.msg); ok && time.Now().Before(e.expires) {
+			ids = append(ids, id)
+			ents[id] = e
+		}
+	}
+	if len(ids) == 0 {
+		cc.mu.Unlock()
+		h.opCut()
+		return
+	}
+	for i := range ids {
+		for j := i + 1; j < len(ids); j++ {
+			if ids[j] < ids[i] {
+				ids[i], ids[j] = ids[j], ids[i]
+			}
+		}
+	}
+	id := ids[h.r.Intn(len(ids))]
+	ents[id].expires = time.Now().Add(-time.Second)
+	cc.mu.Unlock()
+	h.hot = append(h.hot, vC03Spec{q: vC03Q{name: ents[id].deniedName, qtype: 1, qclass: ents[id].qclass}})
+	h.ops = append(h.ops, fmt.Sprintf("OpCutExpire %d", id))
+	h.desc = append(h.desc, fmt.Sprintf("cut#%d %q expires", id, ents[id].deniedName))
+}
+
+// a stored answer outlives its TTL: the stored instant moves back and the next read of its key drops it
+// (PositiveCache.Get / NegativeCache.Get delete an expired entry they come across)
+func (h *vC03Hist) opExpire() {
+	if len(h.stored) == 0 {
+		return
+	}
+	st := h.stored[h.r.Intn(len(h.stored))]
+	e := h.ptr[st.id]
+	if e == nil {
+		return
+	}
+	k := h.keyOf(st.key)
+	cur, ok := h.c.positive.cache.Get(k)
+	if st.neg {
+		cur, ok = h.c.negative.cache.Get(k)
+	}
+	if !ok || cur.(*CacheEntry) != e {
+		return // not the live entry under its key any more
+	}
+	e.stored = time.Now().Add(-e.ttl - time.Second)
+	h.c.store.LookupByKey(k)
+	h.ops = append(h.ops, fmt.Sprintf("OpRemove %s %s", vC03Bool(st.neg), h.keysrc(st.key)))
+	h.desc = append(h.desc, fmt.Sprintf("expire #%d key{%v} neg=%v (dropped by the next read)", st.id, st.key, st.neg))
 }
 
 // a failure entry for one key placed under the hash of another (a collision in the failure map)
@@ -1094,6 +1172,10 @@ func (h *vC03Hist) resolveHistory() {
 			// a probe that must not populate anything: if it misses, the downstream fails it for ITS audience
 			h.resolve(s, r.Intn(2) == 0, client, 1+r.Intn(3), 0)
 		case x < 8:
+			if r.Intn(2) == 0 {
+				h.opClock()
+				break
+			}
 			s.scope = client
 			h.failAt(s)
 		case x < 9:
@@ -1403,6 +1485,8 @@ func (h *vC03Hist) setAliasTagged(key, ident vC03Spec, target string, id uint64,
 	if tag {
 		resp.Answer = append(resp.Answer, &dns.TXT{Hdr: dns.RR_Header{Name: ident.q.name, Rrtype: dns.TypeTXT, Class: ident.q.qclass, Ttl: 3600}, Txt: []string{strconv.FormatUint(id, 10)}})
 	}
+	plain := h.shape(resp, h.nextShape)
+	h.nextShape = 0
 	h.c.store.SetFromResponseWithKey(k, resp, time.Time{}, 0)
 	e, ok := h.c.positive.Get(k)
 	if !ok {
@@ -1412,9 +1496,61 @@ func (h *vC03Hist) setAliasTagged(key, ident vC03Spec, target string, id uint64,
 	if e.wireServe&wireEligible == 0 || e.wireServe&wireChaseSafe != 0 {
 		h.failf("alias entry %v has serve flags %b", ident, e.wireServe)
 	}
+	if !plain {
+		h.ptr[id] = e
+		h.ops = append(h.ops, fmt.Sprintf("OpSetAlias %s %s %s %s %d false", h.keysrc(key), ident.q.coq(), vC03Bool(ident.cd), vC03Bytes(vC03WireOf(target)), id))
+		h.desc = append(h.desc, fmt.Sprintf("alias#%d[not plain] ident{%v} key{%v} -> %q", id, ident, key, target))
+		return
+	}
 	h.ptr[id] = e
-	h.ops = append(h.ops, fmt.Sprintf("OpSetAlias %s %s %s %s %d", h.keysrc(key), ident.q.coq(), vC03Bool(ident.cd), vC03Bytes(vC03WireOf(target)), id))
+	h.ops = append(h.ops, fmt.Sprintf("OpSetAlias %s %s %s %s %d true", h.keysrc(key), ident.q.coq(), vC03Bool(ident.cd), vC03Bytes(vC03WireOf(target)), id))
 	h.desc = append(h.desc, fmt.Sprintf("alias#%d ident{%v} key{%v} -> %q", id, ident, key, target))
+}
+
+// give a response one of the shapes the wire chase refuses to compose from; returns whether it stayed plain
+//   1 authority record, 2 additional record, 3 a record type the composer cannot re-encode
+func (h *vC03Hist) shape(resp *dns.Msg, kind int) bool {
+	q := resp.Question[0]
+	switch kind {
+	case 1:
+		resp.Ns = []dns.RR{&dns.NS{Hdr: dns.RR_Header{Name: h.names[0], Rrtype: dns.TypeNS, Class: q.Qclass, Ttl: 3600}, Ns: "ns." + h.names[0]}}
+	case 2:
+		resp.Extra = []dns.RR{&dns.A{Hdr: dns.RR_Header{Name: "ns." + h.names[0], Rrtype: dns.TypeA, Class: q.Qclass, Ttl: 3600}, A: net.IPv4(192, 0, 2, 53)}}
+	case 3:
+		resp.Answer = append(resp.Answer, &dns.MX{Hdr: dns.RR_Header{Name: q.Name, Rrtype: dns.TypeMX, Class: q.Qclass, Ttl: 3600}, Preference: 1, Mx: "mx." + h.names[0]})
+	default:
+		return true
+	}
+	return false
+}
+
+// a chain hop that is not a plain terminal: kind 1-3 as shape(), 4 NXDOMAIN with the record,
+// 5 neither a record of the type nor an alias (only a TXT record)
+func (h *vC03Hist) setHop(sp vC03Spec, kind int) uint64 {
+	id := h.nextID
+	h.nextID++
+	k := h.keyOf(sp)
+	resp := vC03Resp(sp.q, sp.cd, id)
+	hasq, plain := true, true
+	switch kind {
+	case 4:
+		resp.Rcode = dns.RcodeNameError
+		plain = false
+	case 5:
+		resp.Answer = []dns.RR{&dns.TXT{Hdr: dns.RR_Header{Name: sp.q.name, Rrtype: dns.TypeTXT, Class: sp.q.qclass, Ttl: 3600}, Txt: []string{strconv.FormatUint(id, 10)}}}
+		hasq = sp.q.qtype == dns.TypeTXT
+	default:
+		plain = h.shape(resp, kind)
+	}
+	h.c.store.SetFromResponseWithKey(k, resp, time.Time{}, 0)
+	if e, ok := h.c.positive.Get(k); ok {
+		h.ptr[id] = e
+	} else {
+		h.failf("hop stored under %v is not in the positive cache", sp)
+	}
+	h.ops = append(h.ops, fmt.Sprintf("OpSetHop %s %s %s %d %s %s", h.keysrc(sp), sp.q.coq(), vC03Bool(sp.cd), id, vC03Bool(hasq), vC03Bool(plain)))
+	h.desc = append(h.desc, fmt.Sprintf("hop#%d[shape %d: has-type=%v plain=%v] %v", id, kind, hasq, plain, sp))
+	return id
 }
 
 func (h *vC03Hist) setAnswer(key, ident vC03Spec, how string) uint64 {
@@ -1539,18 +1675,24 @@ func (h *vC03Hist) chaseScenario() {
 		if i > 0 && r.Intn(5) == 0 { // a forged intermediate alias: filed under the hop's key, admitted for something else
 			ident, _ = h.mutate(key)
 			ident.scope = netip.Prefix{}
+		} else if r.Intn(7) == 0 { // an alias body the composer must refuse (authority / additional records)
+			h.nextShape = 1 + r.Intn(2)
 		}
 		h.setAlias(key, ident, target, id)
 		cur = vC03Spec{q: vC03Q{name: vC03MixCase(r, target), qtype: qtype, qclass: qclass}, cd: cd}
 	}
 	key, ident, how := cur, cur, "genuine"
-	if r.Intn(3) != 0 {
-		ident, how = h.mutate(key)
-		if how == "same" {
-			how = "genuine"
+	if x := r.Intn(8); x < 2 {
+		h.setHop(cur, 1+r.Intn(5)) // a genuine terminal the chase's gates must turn away
+	} else {
+		if x < 6 {
+			ident, how = h.mutate(key)
+			if how == "same" {
+				how = "genuine"
+			}
 		}
+		h.setAnswer(key, ident, how)
 	}
-	h.setAnswer(key, ident, how)
 	if r.Intn(6) == 0 {
 		h.opRemoveKey(cur)
 	}
@@ -1870,6 +2012,8 @@ func vC03Config(pol [4]uint8) *config.Config {
 	cfg.ECS.ForwardV6Max = pol[1]
 	cfg.ECS.MinScopeV4 = pol[2]
 	cfg.ECS.MinScopeV6 = pol[3]
+	cfg.RecursionFirewall.FailureCacheMinTTL.Duration = 5 * time.Second
+	cfg.RecursionFirewall.FailureCacheMaxTTL.Duration = 40 * time.Second
 	return cfg
 }
 
@@ -1891,7 +2035,8 @@ func (h *vC03Hist) clampClient(client netip.Prefix) netip.Prefix {
 }
 
 func (h *vC03Hist) caseTerm() string {
-	return fmt.Sprintf("CaseHist (mk_pol %d %d %d %d) [%s]", h.pol[0], h.pol[1], h.pol[2], h.pol[3], strings.Join(h.ops, "; "))
+	return fmt.Sprintf("CaseHist (mk_pol %d %d %d %d %d %d) [%s]", h.pol[0], h.pol[1], h.pol[2], h.pol[3],
+		h.c.failure.initialTTL.Milliseconds(), h.c.failure.maxTTL.Milliseconds(), strings.Join(h.ops, "; "))
 }
 
 func vC03History(r *rand.Rand) map[string]any {
@@ -1905,10 +2050,9 @@ func vC03History(r *rand.Rand) map[string]any {
 	}
 	c := New(cfg)
 	defer c.Stop()
-	fixed := time.Unix(1_900_000_000, 0)
-	c.failure.now = func() time.Time { return fixed }
-	h := &vC03Hist{r: r, c: c, edns: ednsmw.New(cfg), names: vC03Universe(r), nextID: 1, pol: pol,
+	h := &vC03Hist{now: time.Unix(1_900_000_000, 0),r: r, c: c, edns: ednsmw.New(cfg), names: vC03Universe(r), nextID: 1, pol: pol,
 		ptr: map[uint64]*CacheEntry{}, keys: map[uint64]string{}, failIDs: map[string]uint64{}, cutIDs: map[uint64]bool{}}
+	c.failure.now = func() time.Time { return h.now }
 	if c.ecsPolicy == nil {
 		return map[string]any{"inconclusive": true}
 	}
@@ -1975,14 +2119,14 @@ func vC03History(r *rand.Rand) map[string]any {
 		w int
 		f func()
 	}
-	table := []wop{{30, h.opSet}, {6, h.opReplace}, {3, h.opRemove}, {6, h.opPurge}, {30, h.opServe}, {8, h.opLookup}, {5, h.opGet}}
+	table := []wop{{30, h.opSet}, {6, h.opReplace}, {3, h.opRemove}, {3, h.opExpire}, {6, h.opPurge}, {30, h.opServe}, {8, h.opLookup}, {5, h.opGet}}
 	switch flavour {
 	case 2:
 		table = []wop{{16, h.opSet}, {3, h.opReplace}, {2, h.opRemove}, {5, h.opPurge}, {12, h.opFailQ}, {6, h.opFailZ},
-			{8, h.opFailForge}, {22, h.opServe}, {4, h.opLookup}, {6, h.opGet}, {10, h.opFail}, {10, h.opFailWire}}
+			{8, h.opFailForge}, {12, h.opClock}, {22, h.opServe}, {4, h.opLookup}, {6, h.opGet}, {10, h.opFail}, {10, h.opFailWire}}
 	case 3:
 		table = []wop{{16, h.opSet}, {3, h.opReplace}, {2, h.opRemove}, {5, h.opPurge}, {14, h.opCut}, {4, h.opFailQ},
-			{7, h.opCutForge}, {24, h.opServe}, {4, h.opLookup}, {8, h.opGet}, {9, h.opCutL}, {9, h.opCutWire}}
+			{7, h.opCutForge}, {6, h.opCutExpire}, {3, h.opClock}, {24, h.opServe}, {4, h.opLookup}, {8, h.opGet}, {9, h.opCutL}, {9, h.opCutWire}}
 	}
 	total := 0
 	for _, t := range table {
